@@ -48,6 +48,50 @@ func c07cli(c *h.Ctx) {
 	pipes.Set("pfan", []interface{}{gen.OM{{K: "task", V: "pe"}}, gen.OM{{K: "task", V: "pf"}}})
 	cfg := gen.OM{{K: "tasks", V: tasks}, {K: "pipelines", V: pipes}}
 	h.WriteFile(dir+"/tasks.yaml", gen.YAML(cfg))
+	// targets that fail for a reason other than a command's exit status: the process must still exit non-zero
+	// and run nothing afterwards
+	tasks.Set("bad-before", gen.OM{{K: "before", V: []interface{}{"exit 2"}}, {K: "command", V: []interface{}{"printf 'bb\\n' >> \"$TRACE\""}}})
+	tasks.Set("bad-template", gen.OM{{K: "command", V: []interface{}{"printf 'bt{{.NoSuchVariable}}\\n' >> \"$TRACE\""}}})
+	tasks.Set("bad-timeout", gen.OM{{K: "timeout", V: "200ms"}, {K: "command", V: []interface{}{"sh -c 'exec sleep 20'", "printf 'bto\\n' >> \"$TRACE\""}}})
+	tasks.Set("bad-context", gen.OM{{K: "context", V: "badup"}, {K: "command", V: []interface{}{"printf 'bc\\n' >> \"$TRACE\""}}})
+	tasks.Set("bad-dir", gen.OM{{K: "dir", V: "{{.NoSuchVariable}}/x"}, {K: "command", V: []interface{}{"printf 'bd\\n' >> \"$TRACE\""}}})
+	// an external command whose coloured output arrives in two writes (succeeds under every output format)
+	tasks.Set("ansi-split", gen.OM{{K: "command", V: []interface{}{"sh -c 'printf \"a\\033[3\"; sleep 0.3; printf \"1mRED\\033[0m\\n\"'", "printf 'as\\n' >> \"$TRACE\""}}})
+	cfgX := gen.OM{{K: "contexts", V: gen.OM{{K: "badup", V: gen.OM{{K: "up", V: []interface{}{"exit 1"}}}}}}, {K: "tasks", V: tasks}, {K: "pipelines", V: pipes}}
+	h.WriteFile(dir+"/tasks.yaml", gen.YAML(cfgX))
+	type xcase struct {
+		argv     []string
+		want     string
+		wantFail bool
+	}
+	var xs []xcase
+	for _, b := range []string{"bad-before", "bad-template", "bad-timeout", "bad-context", "bad-dir"} {
+		for _, form := range [][]string{{}, {"run"}, {"run", "task"}} {
+			xs = append(xs, xcase{append(append(append([]string{"-o", "raw"}, form...), b), "ok1"), "", true})
+		}
+	}
+	for _, f := range []string{"raw", "prefixed", "cockpit"} {
+		xs = append(xs, xcase{[]string{"-o", f, "ansi-split", "ok1"}, "as ok1", false})
+	}
+	h.Par(len(xs), 8, func(i int) {
+		x := xs[i]
+		trace := fmt.Sprintf("%s/trace.x%d", dir, i)
+		res := tc{Dir: dir, Env: []string{"TRACE=" + trace}, Timeout: 40 * time.Second}.run(c, x.argv...)
+		c.Eval(1)
+		got := strings.Join(strings.Fields(h.ReadFile(trace)), " ")
+		cas := map[string]interface{}{"argv": x.argv, "exit": res.Exit, "trace": got, "stderr": tail(stripANSI(string(res.Stderr)), 400)}
+		if crashed, how := res.Crashed(); crashed {
+			c.Violate("cli-crash/"+h.TopFrame(string(res.Stderr)), "taskctl died: "+how, cas)
+			return
+		}
+		if (res.Exit != 0) != x.wantFail {
+			c.Violate("cli-exit-status/"+x.argv[len(x.argv)-2], fmt.Sprintf("`taskctl %s` exited %d, the first target fails=%v", strings.Join(x.argv, " "), res.Exit, x.wantFail), cas)
+		}
+		if got != x.want {
+			c.Violate("cli-ran-after-failed-target/"+x.argv[len(x.argv)-2], fmt.Sprintf("`taskctl %s` ran [%s], want [%s]", strings.Join(x.argv, " "), got, x.want), cas)
+		}
+		c.Nontrivial("x" + strings.Join(x.argv, " "))
+	})
 	for rep, form := range [][]string{{"pfan", "ok1"}, {"run", "pfan", "ok1"}, {"pfan"}} {
 		trace := fmt.Sprintf("%s/trace.fan%d", dir, rep)
 		args := append([]string{"-o", "raw"}, form...)
